@@ -491,7 +491,7 @@ class Facts:
         if known_ is not None and changed and os.environ.get("REPE_NO_INLINE") != "1":
             shapes2_ = canon.load_known() or {}
             if "callees" in shapes2_:
-                self.new_edges = inline.inline_new_edges(d, shapes2_["callees"], canon.changed_functions(d), set(known_) | set(self.reinlined), set(self.reinlined))
+                self.new_edges = inline.inline_new_edges(d, shapes2_["callees"], canon.changed_functions(d), set(known_) | set(self.reinlined), set(self.reinlined), _rule_words())
                 self.inline_report["inlined"] = list(self.inline_report.get("inlined", [])) + self.new_edges
         self.devirtualised = 0
         if self.inline_report.get("inlined"):
